@@ -1,4 +1,4 @@
-CONSTANTS MaxMsgs = 3  Variants = {1, 2}  Focus = "dao"
+CONSTANTS MaxMsgs = 2  Variants = {1, 2}  Focus = "dao"
 INIT Init
 NEXT NextCover
 VIEW view
